@@ -263,6 +263,21 @@ def confirmations():
         convert(PROG_B, **kw)
         convert(PROG_B, output_dependencies=True, procname="p")
         a2 = convert(PROG_A, **kw)
+        import copy
+        from coco.b09.configs import CompilerConfigs, StringConfigs
+        changed = []
+        for keys in ({"A$": 10}, {"A$": 10, "N$()": 40}, {}):
+            cfg = CompilerConfigs(string_configs=StringConfigs(strname_to_size=dict(keys)))
+            before = copy.deepcopy(cfg.model_dump())
+            outs = []
+            for size, src in ((80, '10 DIM A$,B$,C$(3),N$(2)\n20 B$="x"\n'), (40, '10 DIM A$,B$,C$(3),N$(2)\n20 B$="x"\n'), (80, '10 DIM A$,B$,C$(3),N$(2)\n20 B$="x"\n')):
+                outs.append(convert(src, default_str_storage=size, compiler_configs=cfg, add_standard_prefix=False))
+            if cfg.model_dump() != before:
+                changed.append(dict(configuration=keys, after=cfg.model_dump()))
+            if outs[0] != outs[2]:
+                changed.append(dict(configuration=keys, problem="the same call gives different text after a call with another size"))
+        res.append(ob("frame/convert() leaves its option objects unchanged", not changed, "compiler_configs equal before and after; call 1 == call 3", changed[:2] or "unchanged",
+                      bounded="three configurations x three calls sharing one CompilerConfigs object"))
         res.append(ob("confirm/A,B,A in one process", a1 == a2, "first and third outputs identical", "identical" if a1 == a2 else "%d vs %d bytes" % (len(a1), len(a2)), bounded="one sequence of conversions"))
         return res
     return guarded("confirm", run)
@@ -288,6 +303,14 @@ def decoders_functional():
                     problems.append("%s:%d memoised function %s" % (name, n.lineno, n.name))
                 if isinstance(n, ast.Attribute) and ast.unparse(n) in ("os.environ",):
                     problems.append("%s:%d reads the environment" % (name, n.lineno))
+                # an output file is (re)created empty: what an earlier run left under the same name is never part of the result
+                if isinstance(n, ast.Call) and ast.unparse(n.func) in ("os.open",):
+                    flags = ast.unparse(n.args[1]) if len(n.args) > 1 else ""
+                    if ("O_WRONLY" in flags or "O_RDWR" in flags) and "O_TRUNC" not in flags:
+                        problems.append("%s:%d os.open(%s) writes without O_TRUNC: bytes of an earlier, longer file survive" % (name, n.lineno, flags))
+                if isinstance(n, ast.Call) and ast.unparse(n.func) == "open" and len(n.args) > 1 and isinstance(n.args[1], ast.Constant) \
+                        and isinstance(n.args[1].value, str) and n.args[1].value not in ("r", "rb", "w", "wb", "rt", "wt"):
+                    problems.append("%s:%d open(..., %r): only plain read / truncating write modes keep the output a function of the input" % (name, n.lineno, n.args[1].value))
             # module-level mutable containers: inside functions they may only be read (indexed, iterated, measured)
             mutables = {}
             for st in tree.body:
